@@ -510,6 +510,18 @@ def closure_fed_by_creator(prog, fn, creators):
 def adoption_source(prog, ctx, fn, e, creators):
     """Classify where the operand of an OwnedFd construction comes from."""
     e0 = strip_casts(e)
+    # the operand is the raw descriptor read out of an existing owner: fine only if that owner was taken by value (see below);
+    # read through a reference it makes a SECOND owner of the same descriptor, wherever the first one came from
+    t0 = e0
+    for _ in range(4):
+        if isinstance(t0, tuple) and t0[0] == "var":
+            ds = list(ctx.prov.expand(t0))
+            if len(ds) == 1:
+                t0 = strip_casts(ds[0])
+                continue
+        break
+    if isinstance(t0, tuple) and t0[0] == "field" and t0[3] == OWNED and mentions(t0[1], ctx.prov, lambda z: z[0] == "deref") and not fn.get("unsafe"):
+        return "from-a-borrowed-owner", False
     if mentions(e0, ctx.prov, lambda x: x[0] == "call" and (x[1] in creators)):
         return "created-here", True
     if mentions(e0, ctx.prov, lambda x: x[0] == "call" and (x[1] or "").startswith("tiny_std::") and "fd" not in (x[1] or "").split("::")[-1] and returns_fd_fresh(prog, x[1], creators)):
@@ -517,9 +529,37 @@ def adoption_source(prog, ctx, fn, e, creators):
     if fn.get("unsafe"):
         if mentions(e0, ctx.prov, lambda x: x[0] == "param"):
             return "param-of-unsafe-fn", True
-    # destructured from another owner by value (into_raw / field of an owned struct moved out)
-    if mentions(e0, ctx.prov, lambda x: x[0] == "field" and x[3] == OWNED):
+    # created by a closure handed to a helper that calls it (`sock_nonblock_op_poll_if_not_ready(.., |fd| accept(fd, ..))`)
+    def closure_creates(x):
+        if not (x[0] == "call" and (x[1] or "").startswith("tiny_std::")):
+            return False
+        for a in x[2]:
+            a = strip_casts(a)
+            if isinstance(a, tuple) and a[0] == "agg" and isinstance(a[2], str) and "{closure#" in a[2] and a[2] in prog.fns:
+                cc = prog.ctx(prog.fns[a[2]])
+                if any(mentions(r, cc.prov, lambda z: z[0] == "call" and z[1] in creators) for r in cc.ret_expr().values()):
+                    return True
+        return False
+    if mentions(e0, ctx.prov, closure_creates):
+        return "created-by-the-closure-a-callee-runs", True
+    # destructured from another owner BY VALUE (into_raw / the field of an owner that was moved out): the operand is the owner's
+    # field itself - not something merely computed from it - and the owner is not behind a reference (a borrowed owner still closes)
+    def owner_field_by_value(x, depth=0):
+        x = strip_casts(x)
+        if not isinstance(x, tuple) or depth > 8:
+            return False
+        if x[0] == "field" and x[3] == OWNED:
+            return not mentions(x[1], ctx.prov, lambda z: z[0] == "deref")
+        if x[0] in ("field", "downcast"):
+            return owner_field_by_value(x[1], depth + 1)
+        if x[0] == "var":
+            defs = list(ctx.prov.expand(x))
+            return bool(defs) and all(owner_field_by_value(d, depth + 1) for d in defs)
+        return False
+    if owner_field_by_value(e0):
         return "from-another-owner", True
+    if mentions(e0, ctx.prov, lambda x: x[0] == "field" and x[3] == OWNED) and not mentions(e0, ctx.prov, lambda x: x[0] == "call"):
+        return "from-a-borrowed-owner", False
     if mentions(e0, ctx.prov, lambda x: x[0] == "param"):
         pn = [x[2] for x in walk_deep(e0, ctx.prov) if x[0] == "param"]
         return f"safe-fn-parameter:{pn[0]}", False
